@@ -106,19 +106,19 @@ From RZ.sem Require Import CBody.
 From RZ.gen Require Import OpTablesGen.
 From RZ.proofs Require Import OpTablesProofs.
 Theorem C05_statement_shapes_are_the_compilers :
-  (forall c t f ib0 ic0 ib1 ic1 op tself t0 t1,
-     elab_eff_text [("$0", BPure c); ("$1", BEff t); ("$2", BEff f)] (branch_text op tself t0 t1 ib0 ic0 ib1 ic1) = Some (EBranch (cond_wrap (ib0 || ic0) c) t f)) /\
-  (forall c body ib0 ic0 ib1 ic1 op tself t0 t1,
-     elab_eff_text [("$0", BPure c); ("$1", BEff body)] (forloop_text op tself t0 t1 ib0 ic0 ib1 ic1) = Some (ERepeat (cond_wrap (ib0 || ic0) c) body)) /\
-  (forall t op tself t0 t1 ib0 ic0 ib1 ic1,
-     elab_eff_text [("$0", BPure t)] (jump_text op tself t0 t1 ib0 ic0 ib1 ic1) = Some (ESeq (ESetL "jump_flag" (PBool true)) (ESetL "jump_target" t))) /\
-  (forall a v op tself t0 t1 ib0 ic0 ib1 ic1,
-     elab_eff_text [("$0", BPure a); ("$1", BPure v)] (memstore_text op tself t0 t1 ib0 ic0 ib1 ic1) = Some (EStore a v)) /\
-  (forall op tself t0 t1 ib0 ic0 ib1 ic1,
-     elab_eff_text [] (nop_text op tself t0 t1 ib0 ic0 ib1 ic1) = Some ENop /\ elab_eff_text [] (empty_text op tself t0 t1 ib0 ic0 ib1 ic1) = Some EEmpty) /\
-  (forall c a b ib0 ic0 ib1 ic1 op tself t0 t1,
-     match ternary_text op tself t0 t1 ib0 ic0 ib1 ic1 with Some s => elab (G3 c a b) noparam s | None => None end = Some (PIte (cond_wrap (ib0 || ic0) c) a b)) /\
-  (forall a b tself op t0 t1 ib0 ic0 ib1 ic1, elab_text a b (memload_text op tself t0 t1 ib0 ic0 ib1 ic1) = Some (PLoad (vt_w tself) a)).
+  (forall c t f ib0 ic0 ib1 ic1 il0 v0 op tself t0 t1,
+     elab_eff_text [("$0", BPure c); ("$1", BEff t); ("$2", BEff f)] (branch_text op tself t0 t1 ib0 ic0 ib1 ic1 il0 v0) = Some (EBranch (cond_wrap (ib0 || ic0) c) t f)) /\
+  (forall c body ib0 ic0 ib1 ic1 il0 v0 op tself t0 t1,
+     elab_eff_text [("$0", BPure c); ("$1", BEff body)] (forloop_text op tself t0 t1 ib0 ic0 ib1 ic1 il0 v0) = Some (ERepeat (cond_wrap (ib0 || ic0) c) body)) /\
+  (forall t op tself t0 t1 ib0 ic0 ib1 ic1 il0 v0,
+     elab_eff_text [("$0", BPure t)] (jump_text op tself t0 t1 ib0 ic0 ib1 ic1 il0 v0) = Some (ESeq (ESetL "jump_flag" (PBool true)) (ESetL "jump_target" t))) /\
+  (forall a v op tself t0 t1 ib0 ic0 ib1 ic1 il0 v0,
+     elab_eff_text [("$0", BPure a); ("$1", BPure v)] (memstore_text op tself t0 t1 ib0 ic0 ib1 ic1 il0 v0) = Some (EStore a v)) /\
+  (forall op tself t0 t1 ib0 ic0 ib1 ic1 il0 v0,
+     elab_eff_text [] (nop_text op tself t0 t1 ib0 ic0 ib1 ic1 il0 v0) = Some ENop /\ elab_eff_text [] (empty_text op tself t0 t1 ib0 ic0 ib1 ic1 il0 v0) = Some EEmpty) /\
+  (forall c a b ib0 ic0 ib1 ic1 il0 v0 op tself t0 t1,
+     match ternary_text op tself t0 t1 ib0 ic0 ib1 ic1 il0 v0 with Some s => elab (G3 c a b) noparam s | None => None end = Some (PIte (cond_wrap (ib0 || ic0) c) a b)) /\
+  (forall a b tself op t0 t1 ib0 ic0 ib1 ic1 il0 v0, elab_text a b (memload_text op tself t0 t1 ib0 ic0 ib1 ic1 il0 v0) = Some (PLoad (vt_w tself) a)).
 Proof.
   exact (conj branch_text_ok (conj forloop_text_ok (conj jump_text_ok (conj memstore_text_ok (conj nop_empty_text_ok (conj ternary_text_ok memload_text_ok)))))).
 Qed.
